@@ -56,7 +56,10 @@ def run_impl(pred, ref, metric, thr, m2o):
                                allow_many_to_one=m2o)
     up = UnmatchedInstancePair(pred, ref)
     with quiet():
-        pairs = F._calc_matching_metric_of_overlapping_labels(pred, ref, up.ref_labels, impl.METRICS[metric])
+        try:
+            pairs = F._calc_matching_metric_of_overlapping_labels(pred, ref, up.ref_labels, impl.METRICS[metric])
+        except Exception as e:
+            return [], "ERR:" + type(e).__name__, None
         try:
             lm = m._match_instances(up)
             lmap = {int(k): int(v) for k, v in lm.labelmap.items()}
@@ -250,6 +253,15 @@ def corpus(ctx):
         ctx.count("missed_reference_with_the_largest_label")
         for m2o in (False, True):
             one_case(ctx, p, r, "IOU", (1, 2), m2o, "corpus.missed-large-reference", check_monotone=False)
+    # instances on both sides and not one overlapping pair: the matching is empty, and it is a result (not an exception)
+    ref = np.zeros((4, 12), np.uint8)
+    pred = np.zeros((4, 12), np.uint8)
+    ref[0:2, 0:3], ref[2:4, 8:11] = 1, 2
+    pred[0:2, 5:7], pred[3, 0:4] = 1, 2
+    for metric, thr in (("IOU", (1, 2)), ("DSC", (1, 10)), ("ASSD", (5, 1))):
+        for m2o in (False, True):
+            ctx.count("no_overlapping_pair")
+            one_case(ctx, pred, ref, metric, thr, m2o, "corpus.no-overlap", check_monotone=False)
     # labels near dtype limits in the pair encoding
     ref = np.zeros((1, 40), np.uint8)
     pred = np.zeros((1, 40), np.uint8)
